@@ -16,6 +16,7 @@ import EnrVerif.Model.Text
 import EnrVerif.Model.NodeId
 import EnrVerif.Model.Strings
 import EnrVerif.Model.Json
+import EnrVerif.Model.Utf8
 
 set_option linter.unusedVariables false
 
@@ -276,6 +277,13 @@ def checkAcc (d : DS) (s : St) (o : Obs) (t : Toks) (mi : Option (Bytes × Bool)
     | "panic" => s.prop "C03" s!"no_panic_{k}" ""
     | v => s.prop "C04" s!"roundtrip_{k}" v
   let s := rt (rt (rt s "rtb") "rtt") "rtj"
+  -- `Encodable::length` equals the encoding's length, and a `Vec` of the record encodes to the list of
+  -- its encodings and decodes back
+  let s := if !(thas t "rtl") then s else
+    match tget t "rtl" with
+    | "11" => s.chk
+    | "panic" => s.prop "C03" "no_panic_rtl" ""
+    | v => s.prop "C04" "length_and_list_embedding" s!"(length ok, list round trip ok)={v}"
   -- C11: the encoding under every built-in key type
   let s := if d.name == "toy" || !(thas t "xdec") then s else
     let enc := r.encode
@@ -874,6 +882,12 @@ def handleNid (s : St) (t : Toks) : St :=
     else if !good && out != "err" then s.prop "C16" "deser_accepts_only_64_hex_digits" s!"in={hex inp}"
     else if good && out != hex (packHex body) then s.prop "C16" "deser_yields_the_digits_value" s!"in={hex inp} out={out}"
     else s.chk
+  | "deser_bytes" | "deser_str" | "deser_misc" =>
+    -- deserialisers other than JSON (serde::de::value): what they yield depends on serde's derive
+    -- internals and is not part of any property; only "returns normally" is (C03)
+    if out == "panic" || tget t "out2" == "panic" || tget t "out3" == "panic" then
+      s.prop "C03" s!"nodeid_no_panic_{op}" s!"in={hex inp}"
+    else s.chk
   | "debug" =>
     let s := s.cmp "nid.debug" (hex (NodeId.debug ⟨inp⟩)) out
     if unhex out == [48, 120] ++ hexLower inp then s.chk else s.prop "C16" "debug_is_full_0x_hex" s!"out={out}"
@@ -976,7 +990,24 @@ def finishPending (s : St) (recs : List Obs) (acc : Option Toks) : St :=
           | some other => handleCmp s t o other
           | none => s
         else if op == "load" then
-          { s with cur := (s.slots.find? (·.1 == tget t "slot")).map (·.2) }
+          -- the clone that is loaded must be the record that was stored
+          let slot := (s.slots.find? (·.1 == tget t "slot")).map (·.2)
+          let s := match slot, rec1 with
+            | some st, some now =>
+              if obsEq st now then s.chk else s.prop "C15" "clone_is_identical" s!"slot={tget t "slot"}"
+            | _, _ => s
+          { s with cur := match rec1 with
+                          | some now => some now
+                          | none => slot }
+        else if op == "setcur" then
+          -- the current record is replaced by a decoded one
+          let buf := unhex (tget t "buf")
+          let m := decode d.S buf
+          let s := s.cmp "dec.res" (match m with | .ok _ => "ok" | .error _ => "err") (resClass (tget o "res"))
+          match rec1, m with
+          | some now, .ok (r, _) =>
+            if resClass (tget o "res") == "ok" then { (cmpRec s "dec" r now) with cur := some now } else s
+          | _, _ => s
         else if op == "redecode" then
           match s.cur, rec1 with
           | some c, some after =>
